@@ -6,6 +6,15 @@ from vlib import Leg, hexs
 N = {"quick": (2500, 6000), "thorough": (60000, 400000), "search": (3000, 8000)}
 
 
+def strings_valid(toks):
+    """lexical level of the reference: every short-string token uses the manual's escape sequences only (the generator
+    glues escape parts and plain characters, so `\\65` + `2` gives the invalid `\\652`); esc_scan is defined below"""
+    for t in toks:
+        if t.kind == "string" and t.text[:1] in (b'"', b"'") and esc_scan(t.text[1:-1], t.text[0]) != "V":
+            return False
+    return True
+
+
 def gen_parse(rng, tier):
     nv, nm = N[tier]
     out = []
@@ -13,10 +22,10 @@ def gen_parse(rng, tier):
         g = luagen.Gen(rng, max_depth=rng.choice([1, 2, 2, 3, 4]))
         toks = g.chunk()
         style = "wild" if rng.random() < 0.6 else "plain"
-        out.append(hexs(luagen.render(toks, rng, style)) + " " + ("V" if luagen.ref_valid(toks) else "I"))
+        out.append(hexs(luagen.render(toks, rng, style)) + " " + ("V" if luagen.ref_valid(toks) and strings_valid(toks) else "I"))
         for _ in range(max(1, nm // nv)):
             mt, how = luagen.mutate(toks, rng)
-            v = "V" if luagen.ref_valid(mt) else "I"
+            v = "V" if luagen.ref_valid(mt) and strings_valid(mt) else "I"
             out.append(hexs(luagen.render(mt, rng, "plain" if rng.random() < 0.5 else "wild")) + " " + v)
     return out
 
@@ -53,6 +62,163 @@ def gen_lex(rng, tier):
     return out
 
 
+# ---- escape sequences in short strings (leg c03.escape): valid and invalid forms of every kind, near misses
+HEX = b"0123456789abcdefABCDEF"
+
+
+def esc_item(rng, tame=False):
+    """one escape sequence (without the backslash), valid or a near miss of a valid one (tame: mostly valid kinds)"""
+    k = rng.choice([0, 1, 2, 3, 5, 8, 7, 13, 0, 3, 5, 8]) if tame else rng.randrange(16)
+    hx = lambda n: bytes(rng.choice(HEX) for _ in range(n))
+    if k == 0:
+        return bytes([rng.choice(b"abfnrtv\\\"'")])
+    if k == 1:
+        return rng.choice([b"\n", b"\r", b"\r\n", b"\n\r", b"\n\n"])
+    if k == 2:
+        return b"z" + bytes(rng.choice(b" \t\n\r\v\f") for _ in range(rng.randrange(4)))
+    if k == 3:
+        return b"x" + hx(2)
+    if k == 4:                                              # \x near misses
+        return b"x" + rng.choice([b"", hx(1), hx(1) + b"g", b"g" + hx(1), b"Z", b"{41}", hx(1) + b" "])
+    if k == 5:
+        return str(rng.choice([0, 7, 9, 10, 65, 99, 100, 199, 200, 249, 250, 255])).encode()
+    if k == 6:                                              # decimal near misses
+        return rng.choice([b"256", b"260", b"300", b"999", b"0255", b"0256", b"2555", b"2560", b"025", b"00", b"1234"])
+    if k == 7:
+        return str(rng.randrange(1000)).encode().rjust(rng.randrange(1, 4), b"0")
+    if k == 8:
+        return b"u{" + rng.choice([b"0", b"41", b"7FF", b"10FFFF", b"7fffffff", b"0000000000000041", hx(rng.randrange(1, 8))]) + b"}"
+    if k == 9:                                              # \u near misses
+        return b"u" + rng.choice([b"", b"{", b"{}", b"{41", b"41", b"41}", b"{zz}", b"{4g}", b"{ 41}", b"{41 }", b"{80000000}",
+                                  b"{7FFFFFFFF}", b"{100000000}", b"{ffffffffffffffffff}", b"(41)", b"{-1}"])
+    if k == 10:                                             # any other character
+        return bytes([rng.choice(b"cdeghijklmopqswyABNRTUXZ!#$%&()*+,-./:;<=>?@[]^_`{|}~ ")])
+    if k == 11 and rng.random() < 0.3:                      # non-ASCII byte(s) after the backslash (needs the GBK oracle: skipped)
+        return rng.choice([b"\xe4\xb8\xad", b"\xc3\xa9", b"\xff", b"\x80", b"\xe9", b"\xc3", b"\xff", b"\x80"])
+    if k == 12:
+        return bytes([rng.choice(b"xXuU")]) + hx(rng.randrange(5))
+    if k == 13:
+        return bytes(rng.choice(b"0123456789") for _ in range(rng.randrange(1, 6)))
+    if k == 14:
+        return rng.choice([b"\t", b"\v", b"\f", b"\x00", b"\x7f"])            # raw control characters
+    return bytes([rng.randrange(128)])
+
+
+def esc_body(rng, q):
+    """body of a short string delimited by q: plain bytes and escape sequences; never an unescaped q / line break"""
+    out = bytearray()
+    tame = rng.random() < 0.55
+    for _ in range(rng.choice([1, 1, 2, 3, 5, 8])):
+        m = rng.random()
+        if m < 0.3:
+            for _ in range(rng.randrange(4)):
+                c = rng.choice([b"a", b"z", b"0", b"9", b"A", b"F", b" ", b"{", b"}", b"x", b"u", b"\"", b"'", b"\xe2\x82\xac", b"\xe4\xb8\xad"])   # (2-byte UTF-8 would need the GBK oracle)
+                if c[0] != q:
+                    out += c
+        else:
+            e = esc_item(rng, tame)
+            out += b"\\" + e
+            if rng.random() < (0.15 if tame else 0.4):      # what follows decides: \12|3, \x4|1, \25|6
+                c = rng.choice(b"0123456789abfxu{}")
+                out.append(c)
+    # a trailing backslash or a trailing raw line break would leave the string open: close them off
+    body = bytes(out)
+    n = 0
+    while body.endswith(b"\\" * (n + 1)):
+        n += 1
+    if n % 2 == 1:
+        body += b"n"
+    return body
+
+
+def esc_scan(body, q):
+    """independent reading of the manual (3.1) for the text between the quotes: 'V' all escape sequences legal and
+    the string closes at the end of body, 'I' some escape is not legal, None = the body is not one closed string
+    (an unescaped quote / line break inside: not generated on purpose; such cases carry no demand)"""
+    i, n, ok = 0, len(body), True
+    while i < n:
+        c = body[i]
+        if c == q or c in (10, 13):
+            return None
+        if c != 92:
+            i += 1
+            continue
+        i += 1
+        if i >= n:
+            return None
+        e = body[i]
+        if e in b"abfnrtv\\\"'":
+            i += 1
+        elif e in (10, 13):
+            i += 1
+            if i < n and body[i] in (10, 13) and body[i] != e:
+                i += 1
+        elif e == 0x7A:                                     # z
+            i += 1
+            while i < n and body[i] in b" \t\n\r\v\f":
+                i += 1
+        elif e == 0x78:                                     # x
+            if i + 2 < n + 0 and body[i + 1] in HEX and body[i + 2] in HEX:
+                i += 3
+            else:
+                ok = False
+                i += 1
+        elif 48 <= e <= 57:
+            j = i
+            while j < n and j - i < 3 and 48 <= body[j] <= 57:
+                j += 1
+            if int(body[i:j]) > 255:
+                ok = False
+            i = j
+        elif e == 0x75:                                     # u
+            j = i + 1
+            good = j < n and body[j] == 0x7B
+            if good:
+                j += 1
+                k = j
+                while k < n and body[k] in HEX:
+                    k += 1
+                good = k > j and k < n and body[k] == 0x7D and int(body[j:k], 16) < 2 ** 31
+            if good:
+                i = k + 1
+            else:
+                ok = False
+                i += 1
+        else:
+            ok = False
+            i += 1
+    return "V" if ok else "I"
+
+
+def gen_escape(rng, tier):
+    n = {"quick": 4000, "thorough": 150000, "search": 4000}[tier]
+    out = []
+    while len(out) < n:
+        parts, verdicts = [], []
+        for _ in range(rng.choice([1, 1, 1, 2, 3])):
+            q = rng.choice(b"\"'")
+            body = esc_body(rng, q)
+            v = esc_scan(body, q)
+            if v is None:
+                break
+            verdicts.append(v)
+            parts.append(bytes([q]) + body + bytes([q]))
+        else:
+            head = rng.choice([b"local s = ", b"return ", b"s = s .. ", b"f(", b"x = {", b"", b"\xef\xbb\xbf", b"a.b = "])
+            sep = rng.choice([b" .. ", b", ", b" ", b" --[[ \\q ]] .. ", b"\n.. ", b" -- \\q\n .. "])
+            text = head + sep.join(parts) + rng.choice([b"", b"\n", b")", b"}", b" -- \\xZZ", b" .. [[\\q]]"])
+            out.append(hexs(text) + " " + ("V" if all(v == "V" for v in verdicts) else "I"))
+    return out
+
+
+def proj_lex_valid(obs):
+    if obs.startswith("L: T:"):
+        return "V"
+    if obs.startswith("L:"):
+        return "I"
+    return "?" + obs[:20]
+
+
 def shrink_bytes(case):
     f = case.split(" ")
     if f[0] == "-":
@@ -75,6 +241,11 @@ def nontrivial(c):
 
 SKIP = lambda m: m.startswith("SKIP-ORACLE")
 LEGS = [
+    # escape sequences in short strings: the lexer reports a lexical error exactly when an escape is not one of the
+    # manual's (C03_lex_iff); the demand (V / I) comes from esc_scan, an independent reading of the manual
+    Leg("c03.escape", gen_escape, py_spec=lambda c: c.split(" ")[1], spec_proj=proj_lex_valid, nontrivial=lambda c: True,
+        skip_model=SKIP,
+        describe=lambda c: bytes.fromhex(c.split(" ")[0]).decode("utf8", "replace")[:300] if c[0] != "-" else ""),
     Leg("c03.parse", gen_parse, py_spec=lambda c: c.split(" ")[1], spec_proj=proj_valid, nontrivial=nontrivial,
         skip_model=SKIP, describe=lambda c: bytes.fromhex(c.split(" ")[0]).decode("utf8", "replace")[:300] if c[0] != "-" else ""),
     Leg("c03.lex", gen_lex, nontrivial=nontrivial, skip_model=SKIP, shrink=shrink_bytes,
